@@ -111,6 +111,7 @@ class Rec:
         self.in_pip = False
         self.closed_now = False
         self.resets_at_exit = None
+        self.eof_spin = False
 
 
 def diff_cells(before, after, base=0):
@@ -216,6 +217,7 @@ class StepObs:
         self.cb_raised = [raised_name(e) for e in rec.cb_raised]
         self.pip_calls = list(rec.pip_calls)
         self.pip_raised = [raised_name(e) for e in rec.pip_raised]
+        self.eof_spin = getattr(rec, "eof_spin", False)
         self.out = list(rec.step_sent)
         self.store_changed = store_changed
         self.listen_only = listen_only
@@ -262,8 +264,17 @@ class SyncRequest:
         self.script = []
         self.pending = b""
         self.send_fault = None
+        self.eof = False
+        self.eof_reads = 0
 
     def recv(self, n):
+        # a connection the peer has closed keeps answering b'' — a handler that goes on reading it spins for
+        # ever; after 64 such reads the step is ended through the scripted exit and flagged (rec.eof_spin)
+        if self.eof and not self.serial and not self.script and not self.pending:
+            self.eof_reads += 1
+            if self.eof_reads <= 64:
+                return b""
+            self.rec.eof_spin = True
         # like a socket: at most n bytes of what the peer has written (the handlers ask for 1024)
         if self.pending:
             out, self.pending = self.pending[:n], self.pending[n:]
@@ -273,6 +284,8 @@ class SyncRequest:
             if isinstance(item, BaseException):
                 self.rec.raised = item
                 raise item
+            if len(item) == 0:
+                self.eof = True
             out, self.pending = item[:n], item[n:]
             return out
         # leave the loop without any other effect (see module docstring of props/c12.py)
